@@ -33,8 +33,9 @@ def make_fn(s1, s2):
     same = s1 == s2
 
     def fn(R):
-        a = R.vec(s1, "1")
-        b = R.vec(s2, "2", momentum=True)
+        # every finite stored value, negative tau (the encoding of spacelike vectors) included
+        a = R.vec(s1, "1", tau_nonneg=False)
+        b = R.vec(s2, "2", momentum=True, tau_nonneg=False)
         rtol, atol = R.real("rtol", "tol"), R.real("atol", "tol")
         rtol2, atol2 = R.real("rtol2", "tol"), R.real("atol2", "tol")
         if R.mode == "sym":
@@ -84,7 +85,7 @@ def make_fn(s1, s2):
 
 def make_reflexive(s1):
     def fn(R):
-        a = R.vec(s1, "1")
+        a = R.vec(s1, "1", tau_nonneg=False)
         rtol, atol = R.real("rtol", "tol"), R.real("atol", "tol")
         return [
             ("eq-reflexive", G.holds(a == a)),
